@@ -12,6 +12,7 @@ import (
 // thousands of boxes too short for their type, and errors.Wrap records a call
 // stack (about 340 bytes) every time it runs.
 var (
+	errReadInnerBox      = errors.Wrap(ErrBufLength, "readBox")
 	errReadUint16        = errors.Wrap(ErrBufLength, "readUint16")
 	errReadUUID          = errors.Wrap(ErrBufLength, "readUUID")
 	errReadFlags         = errors.Wrap(ErrBufLength, "readFlags")
@@ -107,9 +108,11 @@ func (b *box) readInnerBox() (inner box, next bool, err error) {
 		return inner, false, nil
 	}
 
-	buf, err := b.Peek(16)
+	// 8 bytes hold the size and the type: the last child of a box may be no
+	// longer than that
+	buf, err := b.Peek(8)
 	if err != nil {
-		return inner, false, errors.Wrap(ErrBufLength, "readBox")
+		return inner, false, errReadInnerBox
 	}
 	inner.reader = b.reader
 	inner.outer = b
@@ -122,6 +125,9 @@ func (b *box) readInnerBox() (inner box, next bool, err error) {
 	switch inner.size {
 	case 1:
 		// 1 means it's actually a 64-bit size, after the type.
+		if buf, err = b.Peek(16); err != nil {
+			return inner, false, errReadInnerBox
+		}
 		inner.size = int64(bmffEndian.Uint64(buf[8:16]))
 		inner.remain = int(inner.size)
 		if inner.size < 0 {
